@@ -80,7 +80,7 @@ TypeOf(sec, k) ==
                [] k = "SamplesMatchPlaybackRate" -> "flag" [] k = "Countdown" -> "countdown"
                [] k = "CountdownOffset" -> "i32" [] OTHER -> "unknown")
       [] sec = "Editor" ->
-            (CASE k = "DistanceSpacing" -> "f" [] k = "BeatDivisor" -> "i32" [] k = "GridSize" -> "i32"
+            (CASE k = "Bookmarks" -> "bookmarks" [] k = "DistanceSpacing" -> "f" [] k = "BeatDivisor" -> "i32" [] k = "GridSize" -> "i32"
                [] k = "TimelineZoom" -> "f" [] OTHER -> "unknown")
       [] sec = "Metadata" ->
             (CASE k \in {"Title", "TitleUnicode", "Artist", "ArtistUnicode", "Creator", "Version", "Source", "Tags"} -> "str"
@@ -88,6 +88,19 @@ TypeOf(sec, k) ==
       [] sec = "Difficulty" ->
             (CASE k \in {"HPDrainRate", "CircleSize"} -> "f" [] k = "OverallDifficulty" -> "od" [] k = "ApproachRate" -> "ar"
                [] k = "SliderMultiplier" -> "sm" [] k = "SliderTickRate" -> "tr" [] OTHER -> "unknown")
+
+\* Bookmarks: a comma separated list; every entry that is not a plain integer is dropped, the
+\* record itself is never rejected.  "bm" values index this table of list texts:
+\*   1 "1000,2000,3000"   2 "5"   3 ""   4 "1, 2" (the second entry has a leading space)   5 "x,7,-3"
+BmTable == << <<1000, 2000, 3000>>, <<5>>, <<>>, <<1>>, <<7, -3>> >>
+ConvBm(val, sec) ==
+    LET v == Eff(val, sec) IN
+    CASE v.vc = "bm" -> BmTable[v.vi]
+      [] v.vc = "int" -> <<v.vi>>
+      [] v.vc = "max" -> <<2147483647>>
+      [] v.vc = "min" -> <<-2147483647>>
+      [] v.vc = "under" -> <<-2147483647 - 1>>
+      [] OTHER -> <<>>
 
 Conv(ty, val, sec) ==
     LET v == Eff(val, sec) IN
@@ -104,7 +117,7 @@ Defaults(sec) ==
     CASE sec = "General" -> [AudioFilename |-> "", AudioLeadIn |-> 0, PreviewTime |-> -1, SampleSet |-> 0, SampleVolume |-> 100,
                             StackLeniency |-> 70, Mode |-> 0, LetterboxInBreaks |-> 0, SpecialStyle |-> 0, WidescreenStoryboard |-> 0,
                             EpilepsyWarning |-> 0, SamplesMatchPlaybackRate |-> 0, Countdown |-> 1, CountdownOffset |-> 0]
-      [] sec = "Editor" -> [DistanceSpacing |-> 100, BeatDivisor |-> 4, GridSize |-> 0, TimelineZoom |-> 100]
+      [] sec = "Editor" -> [Bookmarks |-> <<>>, DistanceSpacing |-> 100, BeatDivisor |-> 4, GridSize |-> 0, TimelineZoom |-> 100]
       [] sec = "Metadata" -> [Title |-> "", TitleUnicode |-> "", Artist |-> "", ArtistUnicode |-> "", Creator |-> "", Version |-> "",
                               Source |-> "", Tags |-> "", BeatmapID |-> -1, BeatmapSetID |-> 0]
       [] sec = "Difficulty" -> [HPDrainRate |-> 500, CircleSize |-> 500, OverallDifficulty |-> 500, ApproachRate |-> 500,
@@ -116,6 +129,7 @@ ApplyKV(st, rec, sec) ==
     IF ty = "unknown" THEN [ok |-> TRUE, st |-> st]                  \* unknown key: ignored, not an error
     ELSE IF ty = "str" THEN [ok |-> TRUE, st |-> [st EXCEPT ![rec.k] = StrOf(rec, sec)]]
     ELSE IF ty = "path" THEN [ok |-> TRUE, st |-> [st EXCEPT ![rec.k] = StdPath(StrOf(rec, sec))]]
+    ELSE IF ty = "bookmarks" THEN [ok |-> TRUE, st |-> [st EXCEPT ![rec.k] = ConvBm(rec, sec)]]
     ELSE LET r == Conv(ty, rec, sec) IN
          IF ~r.ok THEN [ok |-> FALSE, st |-> st]                      \* invalid value: field untouched
          ELSE IF ty = "od" THEN [ok |-> TRUE, st |-> [st EXCEPT !.OverallDifficulty = r.v,
@@ -169,7 +183,7 @@ KeysOf(sec) ==
     CASE sec = "General" -> {"AudioFilename", "AudioLeadIn", "PreviewTime", "SampleSet", "SampleVolume", "StackLeniency", "Mode",
                              "LetterboxInBreaks", "SpecialStyle", "WidescreenStoryboard", "EpilepsyWarning",
                              "SamplesMatchPlaybackRate", "Countdown", "CountdownOffset"}
-      [] sec = "Editor" -> {"DistanceSpacing", "BeatDivisor", "GridSize", "TimelineZoom"}
+      [] sec = "Editor" -> {"Bookmarks", "DistanceSpacing", "BeatDivisor", "GridSize", "TimelineZoom"}
       [] sec = "Metadata" -> {"Title", "TitleUnicode", "Artist", "ArtistUnicode", "Creator", "Version", "Source", "Tags",
                               "BeatmapID", "BeatmapSetID"}
       [] sec = "Difficulty" -> {"HPDrainRate", "CircleSize", "OverallDifficulty", "ApproachRate", "SliderMultiplier", "SliderTickRate"}
@@ -178,6 +192,7 @@ ValsFor(sec, k) ==
     LET ty == TypeOf(sec, k) IN
     CASE ty \in {"str", "path"} -> StrVals
       [] ty \in {"bank", "countdown"} -> NumVals \cup {V("str", 0, s) : s \in {"Soft", "Half speed", "Normal", "Drum", "None", "soft"}}
+      [] ty = "bookmarks" -> NumVals \cup IntOnlyVals \cup {V("bm", i, "") : i \in 1..5}
       [] ty \in {"i32", "flag", "mode"} -> NumVals \cup IntOnlyVals
       [] OTHER -> NumVals \ {V("max", 0, ""), V("min", 0, "")}        \* (2^31-1)*100 does not fit TLC's integers
 
@@ -246,6 +261,7 @@ LastWins == IsKV =>
         LET ty == TypeOf(Section, k)  j == LastValid(k) IN
         (ty \notin {"od", "ar"}) =>
             st[k] = IF j = 0 THEN St0[k]
+                    ELSE IF ty = "bookmarks" THEN ConvBm(Alpha[hist[j]], Section)
                     ELSE IF ty = "str" THEN StrOf(Alpha[hist[j]], Section)
                     ELSE IF ty = "path" THEN StdPath(StrOf(Alpha[hist[j]], Section))
                     ELSE Conv(ty, Alpha[hist[j]], Section).v
